@@ -446,6 +446,10 @@ func runClientConnExecution(t *testing.T, seed int64, log *traceLog) {
 					rn++
 					id := fmt.Sprintf("r%d", rn)
 					pay := []byte(id + "|" + strings.Repeat("y", rng.Intn(30)))
+					if rng.Intn(12) == 0 { // an empty datagram is a datagram (a keep-alive of the peer's NAT binding)
+						pay = []byte{}
+						id = payID(pay)
+					}
 					if rng.Intn(2) == 0 {
 						m := stun.MustBuild(stun.TransactionID, stun.NewType(stun.MethodData, stun.ClassIndication),
 							proto.PeerAddress{IP: p.addr.IP, Port: p.addr.Port}, proto.Data(pay))
